@@ -66,7 +66,7 @@ Definition run_op (o : wop) : M (wout * option N) :=
 
 (* iTree.txn(cache) *)
 Definition begin_st (s : st) (p : pubt) (cache : bool) : st :=
-  mkst (s_nodes s) (s_arrs s) (s_next s) (p_root p) (p_size p) (p_maxp p) (p_depth p) cache [] (s_clock s).
+  mkst (s_nodes s) (s_arrs s) (s_next s) (p_root p) (p_size p) (p_maxp p) (p_depth p) cache [] (s_clock s) (s_log s).
 (* tXn.commit() *)
 Definition pub_of (s : st) : pubt := {| p_root := s_root s; p_size := s_size s; p_maxp := s_maxp s; p_depth := s_depth s |}.
 Definition reset_wr (s : st) : st := set_wr s [] (s_clock s).
@@ -120,12 +120,13 @@ Fixpoint run (w : world) (es : list ev) : world :=
 
 End Run.
 
+(* nothing allocated yet (address 1 is reserved: the not yet assigned roots pointer) *)
+Definition empty_st : st := mkst (PM.empty _) (PM.empty _) 2%positive 1%positive 0%Z 0 0 false [] 0%N [].
 (* Router.newTree (fox.go): four empty method roots *)
 Definition init_st : st :=
-  let s0 := mkst (PM.empty _) (PM.empty _) 1%positive 1%positive 0%Z 0 0 false [] 0%N in
-  match (l <- new_empty_roots common_verbs ;; nr <- alloc_arr l ;; set_root nr) s0 with
+  match (l <- new_empty_roots common_verbs ;; nr <- alloc_arr l ;; set_root nr) empty_st with
   | Ok (_, s) => s
-  | _ => s0
+  | _ => empty_st
   end.
 Definition init_world : world :=
   {| w_st := init_st; w_pub := pub_of init_st; w_open := false; w_handed := [] |}.
